@@ -390,6 +390,15 @@ def c05_cases(ctx):
                 ops = ["in %s" % hx(s), "buf %d 9" % L, "dcall @0:100000 0 - 4", "dnew", "buf %d 9" % (L + 300), "dcall @0:100000 0 %d 4" % L,
                        "dnew", "buf 1024 9", "dcall @0:100000 %d %d 0" % (b0, room)]
                 ctx.add("q_%s_%d_%d" % (name, room, b0), ops, model=(room % 6 == 0 and b0 == 10), kind="hist", hist=[], slen=len(s))
+    # starved decoding of long Huffman codes: every directed stream with 11-15 bit codes (and, thorough, all of them)
+    # fed one and two bytes per call, flat and ring: the byte-at-a-time lookup tier must neither panic nor fail
+    for name, s, p in streams.directed_streams(rng):
+        if not (name.startswith("deep15") or name.startswith("hlit286") or ctx.tier == "thorough"):
+            continue
+        L = len(p) + 10
+        ops = ["in %s" % hx(s), "drive @ flat %d 9 6 1:-" % L, "drive @ ring 32768 9 2 1:-", "drive @ flat %d 9 6 2:-" % L,
+               "drive @ flat %d 9 6 1:1" % L, "drive @ ring 32768 9 2 3:7"]
+        ctx.add("s_%s" % name, ops, model=False, kind="hist", hist=[], slen=len(s))
     # wrappers never panic either
     for i in range(40 if ctx.tier == "quick" else 400):
         s = rng.bytes(rng.range(0, 40)) if rng.chance(1, 2) else streams.mutate(rng, rng.choice(base)[1])[0]
@@ -458,6 +467,11 @@ def c05_eval(ctx):
                     if st == "-1" and geometry_valid(L, pos, flags):
                         failed = True
                     if bad:
+                        break
+                elif w[0] == "drive" and cid.startswith("s_"):
+                    f = parse_fields(line)
+                    if f.get("st") != "0":
+                        bad = "op#%d `%s`: a valid stream fed in small pieces ended with status %s" % (k, op, f.get("st"))
                         break
                 elif w[0] == "iscall":
                     f = parse_fields(line)
@@ -529,7 +543,14 @@ def c06_cases(ctx):
                    # output window filling within the last compressed bytes, then more calls (look-ahead carried over)
                    "drive @ ring 32768 0 %d %s" % (fl, "%d:%d,100000:-" % (near, max(1, len(p) - rng.range(0, 3)))),
                    "drive @ flat %d 0 %d 100000:%d,100000:-" % (len(p) + 1, fl | 4, max(1, len(p) - rng.range(0, 3)))]
-            ctx.add("e%d" % k, ops, kind="eos", stream=s, z=z, full=st)
+            # the C stream over several calls: a first call without Finish, then Finish with too little room (recoverable
+            # buffer error with progress), then more: totals and pointers must keep following what was really consumed
+            ops += ["ziinit %d" % (15 if z else -15),
+                    # (Finish promises that all input is there: a Finish item offers everything that is left)
+                    "zdrive @ %s" % ",".join("%d:%d:%d" % (100000 if fl_ == 4 else rng.choice([1, 7, 100000]),
+                                                          rng.choice([1, 5, max(1, len(p) // 3), 100000]), fl_)
+                                             for fl_ in ([0] + [rng.choice([0, 2, 4, 4]) for _ in range(rng.range(1, 3))]))]
+            ctx.add("e%d" % k, ops, kind="eos", stream=s, z=z, full=st, plain=p)
 
 
 def c06_eval(ctx):
@@ -569,6 +590,12 @@ def c06_eval(ctx):
                     if f.get("dni") != got or f.get("dai") != got:
                         fails.append((cid, "%s: mz_inflate pointer/avail/total accounting disagree: %s" % (tag, str(f)[:120])))
                         break
+                elif w[0] == "zdrive":
+                    if f.get("r") != "1" or f.get("o") != core_show(m["plain"]):
+                        fails.append((cid, "%s: mz_inflate driven by `%s` did not deliver the plaintext and stream end: r=%s to=%s calls=%s" % (
+                            tag, op[:60], f.get("r"), f.get("to"), f.get("calls"))))
+                        break
+                    got = f.get("ti")
                 elif w[0] == "tinfl_call":
                     if f.get("r") != "0":
                         fails.append((cid, "%s: tinfl_decompress did not finish: %s" % (tag, str(f)[:120])))
@@ -654,14 +681,17 @@ def c07_bulk(ctx):
             continue
         k += 1
         L = len(p) + 400
-        scheds = ["100000:-", "1:-", "2:-"] + ["%d:-,100000:-" % c for c in range(0, len(s) + 1)]
+        cutpts = range(0, len(s) + 1) if len(s) <= 1500 else sorted(set([0, len(s)] + list(range(max(0, len(s) - 80), len(s) + 1)) +
+                                                                        [rng.range(0, len(s)) for _ in range(40)]))
+        scheds = ["100000:-", "1:-", "2:-"] + ["%d:-,100000:-" % c for c in cutpts]
         scheds += ["100000:%d" % b for b in (1, 2, 3, 4, 5, 7, 257, 258, 259, 260)] + ["1:1", "3:2"]
         ops = ["in %s" % hx(s)] + ["drive @ flat %d 7 4 %s" % (L, sc) for sc in scheds]
         ctx.add("bf%d" % k, ops, model=False, kind="same", mode="flat")
         ops = ["in %s" % hx(s)] + ["drive @ ring 32768 7 0 %s" % sc for sc in scheds]
         ctx.add("br%d" % k, ops, model=False, kind="same", mode="ring", xmode=("bf%d" % k) if p else None)
         if name.startswith("ring"):
-            R = int(name[4:].split("_")[0])
+            import re as _re
+            R = int((_re.search(r"_L(\d+)", name) or _re.match(r"ring(\d+)", name)).group(1))
             rs = ["100000:-", "1:-", "100000:1", "100000:2", "100000:3", "100000:5", "7:11"] + ["100000:%d" % b for b in range(1, 40)]
             ops = ["in %s" % hx(s)] + ["drive @ ring %d 7 0 %s" % (R, sc) for sc in rs]
             ctx.add("bq%d" % k, ops, model=(ctx.tier == "thorough"), kind="same", mode="ring", xmode="bf%d" % k)
@@ -876,7 +906,7 @@ def c13_cases(ctx):
     n = 30 if ctx.tier == "quick" else 200
     base = corpus(ctx, n, 100)
     k = 0
-    depth = 3 if ctx.tier == "quick" else 4
+    depth = 3       # 64^3 sequences when exhaustive (thorough); depth 4 would be 16.7 million per stream
     alpha_in = [0, 1, 2, 100000]
     alpha_out = [0, 1, 3, 100000]
     alpha_fl = [0, 2, 4, 3]
@@ -894,8 +924,11 @@ def c13_cases(ctx):
                     rec(prefix + [(a, o, f)])
     if ctx.tier == "thorough":
         rec([])
+        for _ in range(20000):
+            seqs.append([(rng.choice(alpha_in), rng.choice(alpha_out), rng.choice(alpha_fl)) for _ in range(rng.range(4, 7))])
+        shorts = shorts[:1]
     else:
-        # quick: depth-3 over a reduced alphabet, plus random depth-4 sequences
+        # quick: random sequences of up to three calls
         for _ in range(1500):
             seqs.append([(rng.choice(alpha_in), rng.choice(alpha_out), rng.choice(alpha_fl)) for _ in range(rng.range(1, 4))])
     for name, s, z, p in shorts:
@@ -1032,7 +1065,7 @@ def check_C13(rep, tier, seed, replay):
         c13_cases(ctx)
     return standard_run(ctx, proof_ok, c13_eval, MODEL_INFLATE_OPS,
                         "streams {valid, truncated, corrupt, with trailing bytes} x call sequences over (input 0/1/2/rest) x (output "
-                        "0/1/3/large) x (None/Sync/Finish/Full): exhaustive to depth 4 in thorough, 1500 random sequences of depth <=3 "
+                        "0/1/3/large) x (None/Sync/Finish/Full): exhaustive to depth 3 plus 20000 random sequences of 4-6 calls in thorough, 1500 random sequences of depth <=3 "
                         "in quick, plus random progress-making driver loops; oracle: per-call protocol clauses and the spec plaintext")
 
 
@@ -1124,7 +1157,7 @@ def check_C19(rep, tier, seed, replay):
 
 # theorems named in each props file (for Print Assumptions); filled by props modules that exist
 PROP_THEOREMS = {
-    "C03": ["C03_decoder_tables_are_rfc_tables"],
+    "C03": ["C03_decoder_tables_are_rfc_tables", "C03_stored_block_streams_decode_partial"],
     "C04": ["C04_bad_zlib_header_never_accepted", "C04_rejected_iff_rfc_invalid"],
     "C05": ["C05_bad_geometry_is_param_error", "C05_failure_is_absorbing", "C05_counts_within_bounds"],
     "C06": ["C06_undo_leaves_less_than_a_byte"],
